@@ -23,6 +23,8 @@ pub struct Profile {
     pub force_disk: bool,
     /// Run the C06 rebuild comparison at the end and at snapshots.
     pub rebuild_checks: bool,
+    /// Draw the RRDP retention configuration per run (C11).
+    pub rrdp_swarm: bool,
 }
 
 #[derive(Clone, Debug, Default, Serialize, Deserialize)]
@@ -68,6 +70,18 @@ pub fn draw_world(
     cfg.disk = profile.force_disk || cfg_rng.chance(1, 2);
     let n_ops = profile.min_ops
         + cfg_rng.usize(profile.max_ops - profile.min_ops + 1);
+    if profile.rrdp_swarm {
+        let mut rrdp_rng = root.fork("rrdp");
+        let (min_nr, max_nr, min_seconds, max_seconds, interval)
+            = crate::ops::draw_rrdp_retention(&mut rrdp_rng);
+        cfg.rrdp.min_nr = min_nr;
+        cfg.rrdp.max_nr = max_nr;
+        cfg.rrdp.min_seconds = min_seconds;
+        cfg.rrdp.max_seconds = max_seconds;
+        cfg.rrdp.interval_min_seconds = interval;
+        cfg.rrdp.archive = rrdp_rng.chance(1, 4);
+        cfg.disk = cfg.disk || rrdp_rng.chance(1, 2);
+    }
     let mut w = World::new(base, START_SECS);
     w.add_instance(cfg);
     (w, root.fork("ops"), n_ops)
